@@ -181,7 +181,8 @@ def _queue_removal_nodes(g):
         if n.kind != "stmt":
             continue
         a = n.ast
-        if isinstance(a, ast.Expr) and isinstance(a.value, ast.Call) and dotted(a.value.func) in ("self.requests.pop", "self.requests.clear", "self.requests.popleft"):
+        if isinstance(a, (ast.Expr, ast.Assign, ast.AugAssign, ast.Return)) and any(
+                isinstance(c, ast.Call) and dotted(c.func) in ("self.requests.pop", "self.requests.clear", "self.requests.popleft", "self.requests.remove") for c in ast.walk(a)):
             out.append(n)
         elif isinstance(a, ast.Assign) and any(dotted(t) == "self.requests" for t in a.targets):
             out.append(n)
